@@ -27,7 +27,7 @@ LABEL_RULES = [
 ]
 FIX_F2 = True   # X models the code after "fix: routine: a new instance waits for every earlier instance to return"
 
-SCEN = {"quick": ["rt_q1", "rt_q3", "rt_q4", "rt_q6", "rt_q8", "rt_q9", "rt_q11", "rt_q12"],
+SCEN = {"quick": ["rt_q1", "rt_q3", "rt_q4", "rt_q6", "rt_q8", "rt_q9", "rt_q11", "rt_q12", "rt_q13"],
         "thorough": ["rt_q1", "rt_q2", "rt_q3", "rt_q4", "rt_q5", "rt_q6", "rt_q7", "rt_q8", "rt_q9", "rt_q10", "rt_t5", "rt_t1", "rt_t2", "rt_t3", "rt_t4"]}
 
 
@@ -43,10 +43,12 @@ def mk_factory(sc):
                   "MaxG = %d" % sc.get("maxg", 4), "MaxTicks = %d" % sc.get("ticks", 0),
                   "FixF2 = %s" % ("TRUE" if FIX_F2 else "FALSE"), "FixF14 = TRUE", "Eager = TRUE",
                   "RootCancel = %s" % ("TRUE" if sc.get("rootcancel") else "FALSE")]
+        if sc.get("rootearly"):
+            consts.append("RootEarlyOnly <- ScTrue")
         cfg = ["INIT Init", "NEXT Next", "CHECK_DEADLOCK FALSE", "CONSTRAINT Bounded", "CONSTANTS"] + [" " + c for c in consts]
         if kind == "mc":
             cfg += ["INVARIANTS ModelSafe QuietInv ChInv OneCurrentCtx ActiveAgree"]
-        vlib.write_mc(d, "MC", "Routine", ["ScProg == " + vlib.json2tla(prog)], cfg)
+        vlib.write_mc(d, "MC", "Routine", ["ScProg == " + vlib.json2tla(prog), "ScTrue == TRUE"], cfg)
     return mk
 
 
